@@ -155,10 +155,20 @@ struct ConvRun : Reporter {
     void judge(R2 got, i128 want, int, const char *op, Slot s) { check_int(got, want, op, s); }
     void judge(R2 got, f128 want, f128 tol, const char *op, Slot s) { check_flt(got, want, tol, op, s); }
 
+    // the implicit converting constructor (only where the library declares the conversion implicit)
+    template <typename W, typename T>
+    void ctor_form(BoolC<false>, P1, W, T) {}
+    template <typename W, typename T>
+    void ctor_form(BoolC<true>, P1 p, W want, T tol) {
+        const au::QuantityPoint<typename I::U2, R2> p2 = p;
+        judge(rawp(p2), want, tol, "implicit-ctor", S_CONV);
+    }
+
     template <typename W, typename T>
     void all_forms(P1 p, W want, T tol) {
         typename I::U2 u2{};
         const unsigned long ub0 = vf_ubsan_reports;
+        ctor_form(BoolC<I::CTOR>{}, p, want, tol);
         judge(p.template coerce_in<R2>(u2), want, tol, "coerce_in<T>(u)", S_CONV);
         judge(rawp(p.template coerce_as<R2>(u2)), want, tol, "coerce_as<T>(u)", S_CONV);
         judge(p.template in<R2>(u2), want, tol, "in<T>(u)", S_CONV);
@@ -248,6 +258,7 @@ struct Feed<T, true> {   // floating source rep: the integer and the integer + 1
     static void go(R &rn, i128 v) {
         rn.value(static_cast<T>(v));
         rn.value(static_cast<T>(v) + T(0.25));
+        rn.value(static_cast<T>(v) + T(1) / T(3));   // not representable in any narrower floating type
     }
 };
 
